@@ -279,13 +279,14 @@ type XStyle struct {
 	Junk             int  // leading bytes before the root element: 0 none, 1 xpacket header, 2 BOM + xpacket, 3 text
 	Quotes           int  // 0 mixed, 1 double, 2 single
 	Shuffle          bool // property order
+	TagSpace         bool // white space inside tags before '>' (start tags without attributes, end tags)
 	Seed             uint64
 }
 
 // DrawXStyle draws the serialiser's choices (every feature separately, so that a failing case
 // minimises to the features it needs).
 func DrawXStyle(l *core.Lane) XStyle {
-	return XStyle{AllSpace: l.Chance(1, 3), LongWS: l.Chance(1, 3), Unknown: l.Bool(), Junk: l.Intn(4), Quotes: l.Intn(3), Shuffle: l.Bool(), Seed: l.U64()}
+	return XStyle{AllSpace: l.Chance(1, 3), LongWS: l.Chance(1, 3), Unknown: l.Bool(), Junk: l.Intn(4), Quotes: l.Intn(3), Shuffle: l.Bool(), Seed: l.U64(), TagSpace: l.Chance(1, 3)}
 }
 
 var unknownProps = []string{"tiff:NativeDigest", "exif:LightSource", "photoshop:ColorMode", "zz:Whatever", "exif:SceneType", "tiff:PhotometricInterpretation", "photoshop:ICCProfile", "lr:hierarchicalSubject", "zz:AnotherOne", "exif:WhiteBalance"}
@@ -321,6 +322,12 @@ func (r *XRecord) Serialise(l *core.Lane, st XStyle) []byte {
 			return "'"
 		}
 		return "\""
+	}
+	gt := func() string { // the '>' that ends a tag, possibly after white space
+		if st.TagSpace && f.Intn(2) == 0 {
+			return ws(1) + ">"
+		}
+		return ">"
 	}
 	var sb strings.Builder
 	// leading bytes before the root element
@@ -416,10 +423,10 @@ func (r *XRecord) Serialise(l *core.Lane, st XStyle) []byte {
 			}
 			tag := p.NS + ":" + p.Name
 			if p.Array == "" {
-				sb.WriteString("<" + tag + ">" + p.Val + "</" + tag + ">" + ws(0))
+				sb.WriteString("<" + tag + gt() + p.Val + "</" + tag + gt() + ws(0))
 				continue
 			}
-			sb.WriteString("<" + tag + ">" + ws(0) + "<rdf:" + p.Array + ">" + ws(0))
+			sb.WriteString("<" + tag + gt() + ws(0) + "<rdf:" + p.Array + gt() + ws(0))
 			for i, it := range p.Items {
 				if p.Array == "Alt" {
 					q = quote()
@@ -427,16 +434,16 @@ func (r *XRecord) Serialise(l *core.Lane, st XStyle) []byte {
 					if i > 0 {
 						lang = []string{"en-US", "de-DE", "fr"}[i%3]
 					}
-					sb.WriteString("<rdf:li xml:lang=" + q + lang + q + ">" + it + "</rdf:li>" + ws(0))
+					sb.WriteString("<rdf:li xml:lang=" + q + lang + q + gt() + it + "</rdf:li" + gt() + ws(0))
 				} else {
-					sb.WriteString("<rdf:li>" + it + "</rdf:li>" + ws(0))
+					sb.WriteString("<rdf:li" + gt() + it + "</rdf:li" + gt() + ws(0))
 				}
 			}
-			sb.WriteString("</rdf:" + p.Array + ">" + ws(0) + "</" + tag + ">" + ws(0))
+			sb.WriteString("</rdf:" + p.Array + gt() + ws(0) + "</" + tag + gt() + ws(0))
 		}
-		sb.WriteString("</rdf:Description>")
+		sb.WriteString("</rdf:Description" + gt())
 	}
-	sb.WriteString(ws(0) + "</rdf:RDF>" + ws(0) + "</x:xmpmeta>")
+	sb.WriteString(ws(0) + "</rdf:RDF" + gt() + ws(0) + "</x:xmpmeta>")
 	if f.Intn(2) == 0 {
 		sb.WriteString(ws(0) + "<?xpacket end='w'?>")
 	}
